@@ -32,7 +32,7 @@ unsigned long g_t_build, g_t_apply, g_t_gc, g_t_immnull;
 unsigned g_broadcasts; int g_bgerr0;
 ldb_memtable_t g_imm_obj; ldb_version_t g_base_obj; ldb_iter_t g_iter_obj;
 int g_sched_calls;
-int g_mode_recover; ldb_memtable_t g_rmem_obj; unsigned g_rmem_unrefs; unsigned g_flushes;
+int g_mode_recover; ldb_memtable_t g_rmem_obj; unsigned g_rmem_unrefs; unsigned g_flushes; int g_flush_failed;   /* latches: a table write during log replay failed */
 
 /* ---------------------------------------------------------- thread model */
 void ldb_mutex_lock(ldb_mutex_t *m) { __CPROVER_assert(m == &g_db->mutex && !g_held, "lock: DB mutex not held"); g_held = 1; g_locks++; }
@@ -69,12 +69,14 @@ int ldb_build_table(const char *dbname, const ldb_dbopt_t *options, ldb_tables_t
   g_build_calls++; if (g_mode_recover) g_flushes++; g_build_rc = nondet_int(); g_build_size = nondet_u64(); __CPROVER_assume(g_build_size < (1ull << 50));
   /* builder contract (db.build): failure or empty input leave file_size 0 and no file behind */
   if (g_build_rc != LDB_OK) g_build_size = 0;
+  if (g_mode_recover && g_build_rc != LDB_OK) g_flush_failed = 1;
   meta->file_size = g_build_size;
   g_t_build = tick();
   return g_build_rc;
 }
 int ldb_version_pick_level_for_memtable_output(ldb_version_t *v, const ldb_slice_t *small, const ldb_slice_t *large) {
   __CPROVER_assert(v == &g_base_obj, "output level is chosen against the pinned base version");
+  __CPROVER_assert(!g_mode_recover, "a table written while replaying a log goes to level 0: tables recovered earlier in the same open exist only in the pending edit, so no level below 0 can be chosen against the current version (a newer log's table would sink under an older one)");
   g_pick_calls++; g_pick_level = nondet_int(); __CPROVER_assume(g_pick_level >= 0 && g_pick_level <= 2);
   return g_pick_level;
 }
@@ -230,7 +232,7 @@ void h_recoverlog(void) {
   db->mem = NULL; db->log = NULL; db->logfile = NULL; db->imm = NULL;
   __CPROVER_assume(db->options.reuse_logs == 0 || db->options.reuse_logs == 1);
   __CPROVER_assume(db->options.paranoid_checks == 0 || db->options.paranoid_checks == 1);
-  g_rmem_creates = g_rmem_unrefs = g_rmem_refs = 0; g_rec_idx = 0; g_cur_batch_idx = -1; g_rins_k = 0; g_rreports_k = 0; g_flushes = 0;
+  g_rmem_creates = g_rmem_unrefs = g_rmem_refs = 0; g_rec_idx = 0; g_cur_batch_idx = -1; g_rins_k = 0; g_rreports_k = 0; g_flushes = 0; g_flush_failed = 0;
   g_reader_inited = 0; g_appendfile_calls = 0; g_wcreate_calls = 0; g_last_end = 0;
   __CPROVER_assume(g_rk >= 0 && g_recs_left < (1ul << 30) && g_file_size < (1ull << 60));
   __CPROVER_assume(g_rseq_k >= 1 && g_rseq_k < (1ull << 56) && g_rcnt_k >= 0 && g_rcnt_k < (1 << 28));
@@ -243,6 +245,7 @@ void h_recoverlog(void) {
   CHECK(g_held, "recover_log_file: mutex still held");
   if (g_seqfile_rc == LDB_OK) CHECK(g_reader_inited == 1 && g_reader_checksum == 1 && g_reader_initial == 0, "the recovery reader verifies checksums (even without paranoid_checks) and starts at offset 0");
   CHECK(max_seq >= max0, "max_sequence never decreases");
+  CHECK(!g_flush_failed || rc != LDB_OK, "a table that could not be written while replaying the log makes the recovery fail, with or without paranoid_checks (an I/O error is never treated like skippable log damage)");
   if (rc == LDB_OK && g_seqfile_rc == LDB_OK && g_rk < g_rec_idx) {
     /* the tracked record was read and the replay finished OK */
     if (g_rsize_k >= 12) {
